@@ -46,10 +46,35 @@ func (r *EngineRunner) flipSweep(cfg []string, maxFlips int, rng *Rng) string {
 		names = append(names, n)
 		total += len(b)
 	}
+	// a finished merge waiting in the side directory is copied too ("M/name"): the Open of the copy adopts
+	// it and indexes the rewritten files from the hint file alone, so nothing re-scans them before Get
+	others := map[string][]byte{} // files that are copied but not damaged (the merge-finished marker)
+	if ments, err := os.ReadDir(r.mergeDir()); err == nil {
+		for _, e := range ments {
+			n := e.Name()
+			b, err := os.ReadFile(filepath.Join(r.mergeDir(), n))
+			if err != nil {
+				continue
+			}
+			if strings.HasSuffix(n, string(datafile.DataFileSuffix)) || strings.HasSuffix(n, string(datafile.HintFileSuffix)) {
+				files["M/"+n] = b
+				names = append(names, "M/"+n)
+				total += len(b)
+			} else {
+				others["M/"+n] = b
+			}
+		}
+	}
+	place := func(dst, n string) string {
+		if strings.HasPrefix(n, "M/") {
+			return filepath.Join(dst+"-merge", n[2:])
+		}
+		return filepath.Join(dst, n)
+	}
 	// everything ever written, per key (from the undamaged log itself)
 	allowed := map[string][][]byte{}
 	for _, n := range names {
-		if !strings.HasSuffix(n, string(datafile.DataFileSuffix)) {
+		if !strings.HasSuffix(n, string(datafile.DataFileSuffix)) || strings.HasPrefix(n, "M/") {
 			continue
 		}
 		var id uint32
@@ -96,74 +121,114 @@ func (r *EngineRunner) flipSweep(cfg []string, maxFlips int, rng *Rng) string {
 			flips = append(flips, flip{n, rng.Intn(len(files[n])), 1 << uint(rng.Intn(8))})
 		}
 	}
-	opened, openErr, getErr, stale := 0, 0, 0, 0
+	opened, openErr, getErr, stale, live := 0, 0, 0, 0, 0
 	latest := r.ref.m
-	for _, fl := range flips {
+	inspect := func(db *kv.DB, what string) {
+		for _, k := range db.ListKeys() {
+			vals, known := allowed[string(k)]
+			if !known {
+				r.fail("C12", "%s: Open lists key %s, which was never written", what, Obs(k))
+				continue
+			}
+			v, err := db.Get(k)
+			if err != nil {
+				getErr++
+				continue
+			}
+			ok := false
+			for _, w := range vals {
+				if bytes.Equal(v, w) {
+					ok = true
+				}
+			}
+			if !ok {
+				r.fail("C12", "%s: Get(%s) returns %d bytes that were never written for that key", what, Obs(k), len(v))
+			} else if !bytes.Equal(v, latest[string(k)]) {
+				stale++
+			}
+		}
+		_ = db.Fold(func(key []byte, value []byte) bool {
+			vals, known := allowed[string(key)]
+			ok := false
+			for _, w := range vals {
+				if bytes.Equal(value, w) {
+					ok = true
+				}
+			}
+			if !known || !ok {
+				r.fail("C12", "%s: Fold yields a pair (%s, %d bytes) that was never written", what, Obs(key), len(value))
+			}
+			return true
+		})
+	}
+	for fi, fl := range flips {
 		root, err := os.MkdirTemp(r.Root, "flip")
 		if err != nil {
 			continue
 		}
 		dst := filepath.Join(root, "db")
 		_ = os.MkdirAll(dst, 0755)
+		if len(others) > 0 || len(files) > 0 {
+			for n := range files {
+				if strings.HasPrefix(n, "M/") {
+					_ = os.MkdirAll(dst+"-merge", 0755)
+					break
+				}
+			}
+		}
+		// every third flip is applied while the database is open (the bytes change under a running engine);
+		// the others damage the closed directory before Open
+		whileOpen := fi%3 == 2
 		for _, n := range names {
 			b := files[n]
-			if n == fl.name {
+			if n == fl.name && !whileOpen {
 				b = append([]byte(nil), b...)
 				b[fl.off] ^= fl.mask
 			}
-			_ = os.WriteFile(filepath.Join(dst, n), b, 0644)
+			_ = os.WriteFile(place(dst, n), b, 0644)
+		}
+		for n, b := range others {
+			_ = os.WriteFile(place(dst, n), b, 0644)
+		}
+		what := fmt.Sprintf("bit %#x of byte %d of %s flipped", fl.mask, fl.off, fl.name)
+		if whileOpen {
+			what += " while the database is open"
 		}
 		func() {
 			defer func() {
 				if e := recover(); e != nil {
-					r.fail("C12", "panic with bit %#x of byte %d of %s flipped: %v", fl.mask, fl.off, fl.name, e)
+					r.fail("C12", "panic with %s: %v", what, e)
 				}
 			}()
 			db, err := kv.Open(parseOpts(cfg, dst))
 			if err != nil {
 				openErr++
+				if whileOpen {
+					r.fail("C12", "the undamaged copy does not open: %v", err)
+				}
 				return
 			}
 			opened++
-			for _, k := range db.ListKeys() {
-				vals, known := allowed[string(k)]
-				if !known {
-					r.fail("C12", "bit %#x of byte %d of %s flipped: Open lists key %s, which was never written", fl.mask, fl.off, fl.name, Obs(k))
-					continue
+			if whileOpen {
+				live++
+				// after the adopting Open the rewritten files live in the data directory under the same names
+				target := place(dst, fl.name)
+				if strings.HasPrefix(fl.name, "M/") {
+					target = filepath.Join(dst, fl.name[2:])
 				}
-				v, err := db.Get(k)
-				if err != nil {
-					getErr++
-					continue
-				}
-				ok := false
-				for _, w := range vals {
-					if bytes.Equal(v, w) {
-						ok = true
+				if f, err := os.OpenFile(target, os.O_RDWR, 0644); err == nil {
+					one := []byte{0}
+					if _, err := f.ReadAt(one, int64(fl.off)); err == nil {
+						one[0] ^= fl.mask
+						_, _ = f.WriteAt(one, int64(fl.off))
 					}
-				}
-				if !ok {
-					r.fail("C12", "bit %#x of byte %d of %s flipped: Get(%s) returns %d bytes that were never written for that key", fl.mask, fl.off, fl.name, Obs(k), len(v))
-				} else if !bytes.Equal(v, latest[string(k)]) {
-					stale++
+					_ = f.Close()
 				}
 			}
-			_ = db.Fold(func(key []byte, value []byte) bool {
-				vals, known := allowed[string(key)]
-				ok := false
-				for _, w := range vals {
-					if bytes.Equal(value, w) {
-						ok = true
-					}
-				}
-				if !known || !ok {
-					r.fail("C12", "bit %#x of byte %d of %s flipped: Fold yields a pair (%s, %d bytes) that was never written", fl.mask, fl.off, fl.name, Obs(key), len(value))
-				}
-				return true
-			})
+			inspect(db, what)
 			_ = db.Close()
 		}()
 		_ = os.RemoveAll(root)
 	}
-	return fmt.Sprintf("done # flips=%d bytes=%d opened=%d open_errors=%d get_errors=%d older_value_served=%d", len(flips), total, opened, openErr, getErr, stale)
+	return fmt.Sprintf("done # flips=%d bytes=%d opened=%d open_errors=%d get_errors=%d older_value_served=%d flipped_while_open=%d", len(flips), total, opened, openErr, getErr, stale, live)
 }
